@@ -305,6 +305,15 @@ func (r *Recorder) Hook(point string, s *scorch.Scorch, args ...interface{}) {
 			point = "copy.memfile"
 		}
 	}
+	if point == "reader.open" {
+		// handed-out snapshots are not steps of the index's own machinery (StatsMap, every
+		// read and every batch take one): they do not count as hits - progress detection and
+		// crash-point numbering are unaffected - but the gate may pause them
+		if g := r.Gate; g != nil {
+			g(point, 0, s)
+		}
+		return
+	}
 	r.mu.Lock()
 	r.hits++
 	hit := r.hits
